@@ -29,6 +29,14 @@ static Counters * g_cnt = NULL;
 static std::vector<rf::Msg> g_rmsgs; static std::vector<MessageRef> g_msgs; static std::vector<std::string> g_flat;
 static std::vector<rf::Node> g_rnodes; static std::vector<DataNodeRef> g_nodes;   // g_nodes[0] is NULL (no node context)
 
+static std::string MsgText(const rf::Msg & m)
+{
+   std::string o = verif::Fmt("what=%u", (unsigned)m.what);
+   for (size_t i = 0; i < m.fields.size(); i++) { o += " " + m.fields[i].name + "=" + rf::TypeName(m.fields[i].type) + "[";
+      for (size_t j = 0; j < m.fields[i].items.size(); j++) { if (j) o += ","; const rf::Val & v = m.fields[i].items[j]; o += (v.type == rf::T_MESSAGE) ? "{" + MsgText(*v.m) + "}" : rf::ValText(v); }
+      o += "]"; }
+   return o;
+}
 static std::string FlatOf(const Message & m) { ByteBufferRef b = m.FlattenToByteBuffer(); return b() ? std::string((const char *)b()->GetBuffer(), b()->GetNumBytes()) : std::string("<flatten failed>"); }
 
 static MessageRef ToReal(const rf::Msg & m)
@@ -197,7 +205,7 @@ static std::string Decide(const QueryFilter & q, const rf::Filter * ref, mutx::C
       if (a) bits[k * NN + j] = '1';
       if (ref) {
          bool u = false; const bool r = rf::Eval(*ref, g_rmsgs[k], g_rnodes[j], u);
-         if (u) undef++; else { cmp++; if (a != r && !c.failed) c.Fail(what + ":" + kk, descr + verif::Fmt(": Message #%llu (%s) node context #%llu: documented semantics say %s, Matches() returned %s", (unsigned long long)k, "see universe", (unsigned long long)j, r ? "match" : "no match", a ? "true" : "false")); }
+         if (u) undef++; else { cmp++; if (a != r && !c.failed) c.Fail(what + ":" + kk, descr + verif::Fmt(": Message #%llu (%s) node context #%llu: documented semantics say %s, Matches() returned %s", (unsigned long long)k, MsgText(g_rmsgs[k]).c_str(), (unsigned long long)j, r ? "match" : "no match", a ? "true" : "false")); }
       }
    }
    ADD(evals, NM * NN); ADD(compared, cmp); ADD(undefinedPairs, undef);
@@ -228,7 +236,9 @@ static void CheckFilter(const rf::Filter & f, mutx::Case & c)
    QueryFilterRef q = Build(f); if (q() == NULL) { c.Fail("harness:cannot-build", descr); return; }
    const std::string bits = Decide(*q(), &f, c, "eval-mismatch", kk, descr);
    CheckUnmodified(c, kk, descr);
-   RoundTrip(*q(), bits, true, c, "archive-", kk, descr);
+   // a zero-length (non-NULL) raw value is archived as "no value": both forms never match, so only the representation differs (observation, not compared)
+   const bool wantEqual = !(f.kind == rf::K_RAW && f.hasValue && f.value.s.empty());
+   RoundTrip(*q(), bits, wantEqual, c, "archive-", kk, descr);
    const verif::Hash128 h = verif::HashStr(bits); c.Outcome(verif::Fmt("%016llx%016llx", (unsigned long long)h.a, (unsigned long long)h.b));
 }
 
@@ -539,7 +549,7 @@ int main(int argc, char ** argv)
    g_cnt = (Counters *)mmap(NULL, sizeof(Counters), PROT_READ | PROT_WRITE, MAP_SHARED | MAP_ANONYMOUS, -1, 0); memset(g_cnt, 0, sizeof(Counters));
    BuildUniverse(); BuildLeaves(); BuildSeeds();
 
-   int r1 = args.Thorough() ? 16 : 10, k2 = args.Thorough() ? 3 : 2, p3 = args.Thorough() ? 8 : 5, dev = args.Thorough() ? 2 : 1;   // k2: 2 = only the 2-children part, 3 = also the 3-children part
+   int r1 = 16, k2 = args.Thorough() ? 3 : 2, p3 = args.Thorough() ? 10 : 5, dev = args.Thorough() ? 2 : 1;   // k2: 2 = only the 2-children part, 3 = also the 3-children part
    if (args.kv.count("r1")) r1 = atoi(args.kv["r1"].c_str()); if (args.kv.count("k2")) k2 = atoi(args.kv["k2"].c_str());
    if (args.kv.count("p3")) p3 = atoi(args.kv["p3"].c_str()); if (args.kv.count("dev")) dev = atoi(args.kv["dev"].c_str());
    std::string replayPart; verif::ReplayDoc doc;
@@ -610,6 +620,7 @@ int main(int argc, char ** argv)
       p.extra["archives_offered"] = verif::Fmt("%llu", (unsigned long long)g_cnt->hostileOffered); p.extra["accepted_builds"] = verif::Fmt("%llu", (unsigned long long)g_cnt->hostileAccepted); p.extra["evaluations"] = verif::Fmt("%llu", (unsigned long long)g_cnt->hostileEvals);
    }
    res.observations.push_back("substring searches with an empty needle or empty subject are outside the compared domain (String::IndexOf(\"\") is true on a non-empty string, IndexOfIgnoreCase(\"\") is always false); raw-data filters with a NULL/zero-length value never match");
+   res.observations.push_back("a RawDataQueryFilter whose value is a zero-length (non-NULL) buffer is archived without a value and restored with a NULL value: decisions are identical (never matches) but IsEqualTo() is false");
    res.observations.push_back("ChildCountQueryFilter without a node context evaluates as if the node had 0 children (not documented; outside the compared domain)");
    res.observations.push_back("ValueExistsQueryFilter::IsEqualTo compares only the type code (it calls QueryFilter::IsEqualTo instead of ValueQueryFilter::IsEqualTo), so two value-exists filters on different fields compare equal; not part of C14's text");
    fprintf(stderr, "C14: evals=%llu compared=%llu undefined=%llu roundtrips=%llu hostile=%llu/%llu violations=%llu wall=%.1fs\n", (unsigned long long)g_cnt->evals, (unsigned long long)g_cnt->compared, (unsigned long long)g_cnt->undefinedPairs, (unsigned long long)g_cnt->roundTrips, (unsigned long long)g_cnt->hostileAccepted, (unsigned long long)g_cnt->hostileOffered, (unsigned long long)res.violations.size(), verif::NowS() - args.t0);
